@@ -182,10 +182,10 @@ func (k Keeper) AddDeposit(ctx sdk.Context, receiverAddr, senderAddr sdk.AccAddr
 		}
 
 		// stream expired or new. Calculate from now
-		depositZeroTime = nowTime.Add(time.Second * time.Duration(durationExtension))
+		depositZeroTime = types.AddSeconds(nowTime, durationExtension)
 	} else {
 		// stream not expired. Add to current deposit zero time
-		depositZeroTime = stream.DepositZeroTime.Add(time.Second * time.Duration(durationExtension))
+		depositZeroTime = types.AddSeconds(stream.DepositZeroTime, durationExtension)
 	}
 
 	// Send topUpDeposit from user acc to module acc
@@ -255,7 +255,7 @@ func (k Keeper) SetNewFlowRate(ctx sdk.Context, receiverAddr, senderAddr sdk.Acc
 		// above. We're effectively creating a "new" stream, based on existing deposit value
 		// and the new flow rate
 		duration = types.CalculateDuration(stream.Deposit, newFlowRate)
-		depositZeroTime = nowTime.Add(time.Second * time.Duration(duration))
+		depositZeroTime = types.AddSeconds(nowTime, duration)
 	}
 
 	// save new stream data
